@@ -64,7 +64,45 @@ impl<'a> G<'a> {
             self.mark();
             return;
         }
-        match self.rng.below(14) {
+        match self.rng.below(16) {
+            14 | 15 => {
+                // value-carrying labels: one or two nested `block (result i32)`, left through a
+                // `br_table` with 0..3 targets (the index is popped first, the value is carried),
+                // a `br` or a `br_if`; the result is folded into the accumulator
+                let two = self.rng.chance(1, 2);
+                self.out.push(I::Block(BlockType::Result(ValType::I32)));
+                if two {
+                    self.out.push(I::Block(BlockType::Result(ValType::I32)));
+                }
+                self.mark += 1;
+                self.out.push(I::I32Const(1000 + self.mark));
+                let depth = if two { 2 } else { 1 };
+                match self.rng.below(3) {
+                    0 => {
+                        let n = self.rng.below(4) as usize;
+                        let ls: Vec<u32> = (0..n).map(|_| self.rng.below(depth) as u32).collect();
+                        let d = self.rng.below(depth) as u32;
+                        self.cond();
+                        self.out.push(I::BrTable(ls.into(), d));
+                    }
+                    1 => {
+                        self.cond();
+                        self.out.push(I::BrIf(self.rng.below(depth) as u32));
+                    }
+                    _ => {
+                        self.out.push(I::Br(self.rng.below(depth) as u32));
+                        if self.rng.chance(1, 2) {
+                            self.out.push(I::Nop);
+                        }
+                    }
+                }
+                if two {
+                    self.out.push(I::End);
+                    self.out.extend([I::I32Const(3), I::I32Add]);
+                }
+                self.out.push(I::End);
+                self.out.extend([I::GlobalGet(0), I::I32Add, I::GlobalSet(0)]);
+            }
             0 | 1 => self.mark(),
             2 => self.out.push(I::Nop),
             3 | 4 | 5 => {
